@@ -518,7 +518,7 @@ func genInter(rng *gen.Rng) string {
 func genFinal(rng *gen.Rng) string { return string(rune(rng.Range(0x40, 0x7e))) }
 
 func genElement(rng *gen.Rng) (string, string) {
-	switch rng.Intn(14) {
+	switch rng.Intn(15) {
 	case 0, 1:
 		return genText(rng, rng.Range(1, 6)), "text"
 	case 2:
@@ -547,6 +547,13 @@ func genElement(rng *gen.Rng) (string, string) {
 	case 11: // malformed CSI / DCS
 		bad := gen.Pick(rng, []string{"1$2", "1?2", "$1", "1;é", "é", "$é", "1\x1b", "1\x18", "?1?", "1 2", "\x7f1\x0a2"})
 		return "\x1b" + gen.Pick(rng, []string{"[", "P"}) + bad + genFinal(rng) + genTerminator(rng, false), "malformed"
+	case 13: // a control string interrupted by another sequence; the flag must not survive it
+		intro := gen.Pick(rng, []string{"\x1b]", "\x1bPq", "\x1b_", "\x1bX", "\x1b^", "\x1bP:"})
+		next, _ := genElement(rng)
+		for !strings.HasPrefix(next, "\x1b") || strings.HasPrefix(next, "\x1b\\") {
+			next = "\x1b" + gen.Pick(rng, []string{"A", "7", "[m", "OQ", "(B"})
+		}
+		return intro + genPayload(rng) + next, "interrupted-string"
 	case 12: // Alt+key style
 		return "\x1b" + gen.Pick(rng, []string{"\x7f", "a", "\\", "é", "\x0a", "\x1b"}), "alt"
 	default: // raw bytes
@@ -631,6 +638,18 @@ func runC02(r *hx.Run) error {
 	for _, p := range append([]string{""}, statePrefixes...) {
 		for b := 0; b < 256; b++ {
 			s.add(kase{data: append([]byte(p), byte(b), 'x', '\x1b', '\\', 'y'), kind: "all-bytes-after-prefix"})
+		}
+	}
+	// (b') control strings interrupted by another ESC-introduced sequence (not ended by ST/BEL/CAN/SUB),
+	// then, possibly much later, a free-standing ESC \ (Alt+\): it must be delivered
+	for _, intro := range []string{"\x1b]x", "\x1b]", "\x1bPqx", "\x1bP1$rx", "\x1bP:x", "\x1b_x", "\x1bXx", "\x1b^x"} {
+		for _, breaker := range []string{"\x1bA", "\x1b7", "\x1b[1m", "\x1b[A", "\x1bOP", "\x1b(B", "\x1b\x7f", "\x1b\x0a7", "\x1b\x1bA",
+			"\x1b]y\x07", "\x1bPq\x18", "\x1b_y\x1b\\", "\x1bXy\x1a", "\x1b\xc3\xa9"} {
+			for _, gap := range []string{"", "z", "\x0a", "zz\x1b[2J", "\xe4\xb8\x96"} {
+				for _, tail := range []string{"\x1b\\", "\x1b\\w", "\x1b\\\x1b\\"} {
+					s.add(kase{data: []byte(intro + breaker + gap + tail), kind: "interrupted-string"})
+				}
+			}
 		}
 	}
 	// (e) text with every split
